@@ -125,13 +125,9 @@ def emit (filename : Option Str) (s : Str) : Emitted :=
 
 /-! ### `Standard._get_x_y`: numbers -/
 
-/-- `np.nan_to_num` (nan ↦ 0, ±inf ↦ ±largest double) -/
-def dblMax : Rat := ((2 ^ 1024 - 2 ^ 971 : Nat) : Rat)
-
+/-- `np.nan_to_num(y, posinf=inf, neginf=-inf)`: nan ↦ 0, everything else (±inf too) stays -/
 def nanToNum : XR → XR
   | .nan => .fin 0
-  | .pinf => .fin dblMax
-  | .ninf => .fin (-dblMax)
   | x => x
 
 def addRows (a b : List XR) : List XR := List.zipWith (· + ·) a b
@@ -141,7 +137,7 @@ def accFrom (s : List XR) : List (List XR) → List (List XR)
   | [] => []
   | r :: rs => let s' := addRows s (r.map nanToNum); s' :: accFrom s' rs
 
-/-- `-acc`: `np.cumsum(np.nan_to_num(y), axis=0)` on the rows × inputs matrix -/
+/-- `-acc`: `np.cumsum(np.nan_to_num(y, posinf=inf, neginf=-inf), axis=0)` on the rows × inputs matrix -/
 def acc : List (List XR) → List (List XR)
   | [] => []
   | r :: rs => let s := r.map nanToNum; s :: accFrom s rs
